@@ -107,7 +107,7 @@ theorem callMethod_valueError_iff (d : Decl V) (act : Action V) (c : Child V) :
   | info =>
     cases act with
     | info val =>
-      simp only [callMethod, RejectedMethod]
+      simp only [callMethod, RejectedMethod, Bool.not_true, Bool.and_false, Bool.false_eq_true, if_false]
       by_cases h1 : (val.any fun kv => ln.contains kv.1) = true
       · rw [if_pos h1]
         simp only [true_iff]
@@ -157,10 +157,12 @@ def isMethod : Kind V → Action V → Bool
   | .enum _, .state _ => true
   | _, _ => false
 
-/-- F7: the two methods that touch their value state before (instead of) `_raise_if_not_observable()` -/
+/-- F7: the two methods that touch their value state before (instead of) `_raise_if_not_observable()` — as long as
+the source does not start them with that call (`Generated.Metrics.counterResetChecksObservable`,
+`infoChecksObservable`; both `false` on the tree the finding was made on) -/
 def skipsObservableCheck : Kind V → Action V → Bool
-  | .counter, .reset => true
-  | .info, .info _ => true
+  | .counter, .reset => !counterResetChecksObservable
+  | .info, .info _ => !infoChecksObservable
   | _, _ => false
 
 /-- an update method on a labelled parent without labels raises ValueError — except the two of F7 -/
@@ -169,11 +171,15 @@ theorem parentCall_valueError_iff (d : Decl V) (act : Action V) :
       (isMethod d.kind act = true ∧ skipsObservableCheck d.kind act = false) := by
   obtain ⟨name, kind, ln⟩ := d
   cases kind <;> cases act <;> simp [callMethod, isMethod, skipsObservableCheck]
+  · cases counterResetChecksObservable <;> simp
+  · cases infoChecksObservable <;> simp
 
 /-- F7 in the model: on a labelled parent `Counter.reset()` and `Info.info()` raise AttributeError -/
 theorem parentCall_attributeError (d : Decl V) (act : Action V) (h : skipsObservableCheck d.kind act = true) :
     (callMethod d false act none).2 = .raised .attributeError := by
   obtain ⟨name, kind, ln⟩ := d
   cases kind <;> cases act <;> simp [callMethod, skipsObservableCheck] at h ⊢
+  · simp [h]
+  · simp [h]
 
 end PromVerif.Lemmas.Metrics
